@@ -73,7 +73,7 @@ def suite_hist_api(seed, tier):
     rng = random.Random(seed + 31)
     labelled = [hist.gen_history(rng, max_ops=7, max_rows=16, user_labels=True) for _ in range(n // 6)]
     hs = gen_histories(seed, n, max_ops=10, max_rows=24) + gen_switch(seed, n // 5) + labelled \
-        + gen_refine_twice(seed, n // 10)
+        + gen_refine_twice(seed, n // 10) + gen_bf_change(seed, n // 5)
     return _run("hist-api", hs, walk=False)
 
 
@@ -240,9 +240,55 @@ def gen_switch(seed, n):
     return hs
 
 
+def gen_bf_change(seed, n):
+    """nodes filled under one branching factor, then the branching factor is lowered (or raised) through the
+    attribute / set_merge and the tree keeps growing: nodes of different capacities live in one tree and the
+    old, fuller ones split afterwards"""
+    rng = random.Random(seed + 97)
+    hs = []
+    for k in range(n):
+        nf = rng.choice([8, 11, 16])
+        crit, thr = rng.choice([("never-merge", 0.5), ("diameter", 0.95), ("diameter", 0.8), ("radius", 0.9)])
+        bf0 = rng.choice([5, 6, 7, 7])
+        bf1 = rng.choice([2, 2, 3, 4]) if k % 4 else rng.choice([8, 12])
+        cfg = {"crit": crit, "tol": 0.05 if crit == "never-merge" else None, "thr": thr, "bf": bf0}
+        rows1 = [[rng.randint(0, 1) for _ in range(nf)] for _ in range(rng.randint(10, 36))]
+        rows2 = [[rng.randint(0, 1) for _ in range(nf)] for _ in range(rng.randint(8, 30))]
+        ops = [{"op": "fit", "rows": rows1, "labels": None, "form": "unpacked-array", "bad_at": None},
+               {"op": "setcfg", "crit": None, "tol": None, "thr": None, "bf": bf1},
+               {"op": "fit", "rows": rows2, "labels": None, "form": "unpacked-array", "bad_at": None}]
+        if rng.random() < 0.3:
+            ops.append({"op": "recluster", "iters": 1, "extra": 0.0, "shuffle": rng.random() < 0.5,
+                        "seed": rng.randint(0, 99), "stop_early": False})
+        hs.append({"cfg": cfg, "nf": nf, "ops": ops})
+    return hs
+
+
+def gen_shuffled_big(seed, n):
+    """a cluster of >= 256 members (uint16 counters) next to small ones, then a SHUFFLED recluster, under n
+    different shuffle seeds: the position of the big cluster in the shuffled list varies (first, last, ...)"""
+    rng = random.Random(seed + 101)
+    hs = []
+    for k in range(n):
+        nf = 8
+        big = [[1, 1, 1, 1, 0, 0, 0, 0] for _ in range(rng.choice([260, 300]))]
+        small = []
+        for g in range(rng.choice([2, 3, 6])):
+            own = [0, 0, 0, 0] + [1 if (g >> b) & 1 else 0 for b in range(3)] + [1]
+            small += [own] * rng.randint(1, 4)
+        rows = big + small
+        rng.shuffle(rows)
+        hs.append({"cfg": {"crit": "diameter", "tol": None, "thr": 0.9, "bf": rng.choice([4, 50])}, "nf": nf,
+                   "ops": [{"op": "fit", "rows": rows, "labels": None, "form": "unpacked-array", "bad_at": None},
+                           {"op": "recluster", "iters": 1, "extra": 0.0, "shuffle": True, "seed": k,
+                            "stop_early": False}]})
+    return hs
+
+
 def suite_boundary(seed, tier):
     return _run("boundary", gen_boundary(seed, tier) + gen_exact_boundary(seed, tier)
-                + gen_merge_boundary(seed, tier), walk=True, shard=1)
+                + gen_merge_boundary(seed, tier) + gen_shuffled_big(seed, 3 if tier == "quick" else 12),
+                walk=True, shard=1)
 
 
 def suite_exhaustive(seed, tier):
@@ -363,7 +409,8 @@ def search_hist(which):
             if isinstance(d, dict) and "history" in d:
                 cands.append(d["history"])
         cands += gen_exact_boundary(seed + 1, "thorough") + gen_merge_boundary(seed + 1, "thorough") \
-            + gen_switch(seed + 1, 150) + gen_refine_twice(seed + 1, 120) + gen_seq_refine(seed + 1, 150)
+            + gen_switch(seed + 1, 150) + gen_refine_twice(seed + 1, 120) + gen_seq_refine(seed + 1, 150) \
+            + gen_bf_change(seed + 1, 150) + gen_shuffled_big(seed + 1, 12)
         if which == "C08":
             cands += gen_tiny_long(seed + 1, 3000)
         cands += gen_boundary(seed + 1, "quick")
